@@ -358,6 +358,8 @@ pub enum V {
     Empty,
     /// Output-only marker: the carrier cannot be deserialized into.
     Skip,
+    /// Input-only, inside a UDT value: the field is not listed by the (dynamic) value at all.
+    Absent,
     I(BigI),
     B(bool),
     Bits(Vec<u8>),
@@ -402,6 +404,7 @@ impl V {
             "unset" => Ok(V::Unset),
             "empty" => Ok(V::Empty),
             "skip" => Ok(V::Skip),
+            "absent" => Ok(V::Absent),
             "i" => Ok(V::I(big("i")?)),
             "b" => match o.get("v").and_then(Value::as_u64) {
                 Some(0) => Ok(V::B(false)),
@@ -435,6 +438,7 @@ impl V {
             V::Unset => json!({"k":"unset"}),
             V::Empty => json!({"k":"empty"}),
             V::Skip => json!({"k":"skip"}),
+            V::Absent => json!({"k":"absent"}),
             V::I(i) => json!({"k":"i","i":i.to_json()}),
             V::B(b) => json!({"k":"b","v": if *b {1} else {0}}),
             V::Bits(b) => json!({"k":"bits","b":bytes_to_json(b)}),
@@ -582,7 +586,7 @@ pub fn decimal_parts_to_v(bytes: &[u8], scale: i32) -> V {
 /// value kind that does not belong to the type, out-of-range scalar, invalid UTF-8, ...).
 pub fn to_cql(t: &T, v: &V) -> Option<CqlValue> {
     match v {
-        V::Null | V::Unset | V::Skip => return None,
+        V::Null | V::Unset | V::Skip | V::Absent => return None,
         V::Empty => return Some(CqlValue::Empty),
         _ => {}
     }
@@ -656,6 +660,7 @@ pub fn to_cql(t: &T, v: &V) -> Option<CqlValue> {
             let fields: Vec<(String, Option<CqlValue>)> = vs
                 .iter()
                 .zip(fs.iter())
+                .filter(|(x, _)| !matches!(x, V::Absent))      // a field the value does not list
                 .map(|(x, (fname, ft))| Some((fname.clone(), to_cql_opt(ft, x)?)))
                 .collect::<Option<_>>()?;
             Some(CqlValue::UserDefinedType {
